@@ -156,3 +156,78 @@ MC_Empty == {}
         return res, verdicts
     finally:
         shutil.rmtree(d, ignore_errors=True)
+
+
+def events_of_steps(box, steps):
+    """lock-step steps of real trash-put processes -> the event vocabulary of PutOpsTrace.tla"""
+    import os
+    tp = os.path.relpath(box.tdirs['t1'], box.root)
+    paths = {tp: 'dir', tp + '/files': 'files', tp + '/info': 'info'}
+    evs = []
+    last_eexist = {}
+    for s in steps:
+        op, raw, res, p = s['op'], s['raw'], s['res'], s['p']
+        path = raw[-1] if raw else None
+        if path is None:
+            continue
+        if op == 'mkdir' and path in paths:
+            evs.append({'p': p, 'k': 'mkdir', 'part': paths[path], 'slot': '-', 'res': res})
+            last_eexist[p] = path if res == 'EEXIST' else None
+            continue
+        if op == 'stat' and path in paths and last_eexist.get(p) == path:
+            evs.append({'p': p, 'k': 'isdir', 'part': paths[path], 'slot': '-', 'res': res})
+            last_eexist[p] = None
+            continue
+        if path.startswith(tp + '/files/') and '/' not in path[len(tp) + 7:]:
+            slot = box.slot_abs(os.fsencode(path[len(tp) + 7:]))
+            if op in ('lstat', 'stat'):
+                evs.append({'p': p, 'k': 'probe', 'part': '-', 'slot': slot, 'res': res})
+                continue
+            if op == 'rename':
+                evs.append({'p': p, 'k': 'rename', 'part': '-', 'slot': slot, 'res': res})
+                continue
+        if path.startswith(tp + '/info/') and path.endswith('.trashinfo'):
+            slot = box.slot_abs(os.fsencode(path[len(tp) + 6:-10]))
+            k = {'open_excl': 'create', 'write': 'write', 'close': 'close'}.get(op)
+            if k:
+                evs.append({'p': p, 'k': k, 'part': '-', 'slot': slot, 'res': res})
+                continue
+        if op in ('mkdir', 'open_w', 'open_excl', 'write', 'rename', 'replace', 'link', 'symlink', 'unlink', 'rmdir',
+                  'chmod', 'utime', 'truncate', 'sendfile') and (path.startswith(tp + '/') or path == tp):
+            evs.append({'p': p, 'k': 'other:' + op, 'part': '-', 'slot': '-', 'res': res})   # nothing in the design matches
+    return evs
+
+
+def validate_put_traces(traces, procs, preinfo=(), prepay=(), dirs_exist=False, workers=4, timeout=900):
+    """traces: list of event lists of ONE scenario -> (TlcResult, accepted 1-based ids)"""
+    import json, os, re, shutil, tempfile
+    slots = ['n'] + ['n%d' % i for i in range(1, 9)]
+    mod = '''---- MODULE MC_PutOpsTrace ----
+EXTENDS PutOpsTrace
+MC_Procs == %s
+MC_Cands == <<"t1">>
+MC_Slots == <<%s>>
+MC_RandSlots == {}
+MC_PreInfo == %s
+MC_PrePay == %s
+MC_DirsExist == %s
+MC_Empty == {}
+====
+''' % (tla_set(map(tla_str, procs)), ', '.join(map(tla_str, slots)), tla_pairs(preinfo), tla_pairs(prepay),
+       '{"t1"}' if dirs_exist else '{}')
+    cfg = ('INIT InitT\nNEXT NextT\nCONSTANTS Procs <- MC_Procs Cands <- MC_Cands Slots <- MC_Slots RandSlots <- MC_RandSlots\n'
+           'CONSTANTS PreInfo <- MC_PreInfo PrePay <- MC_PrePay DirsExist <- MC_DirsExist CopyCands <- MC_Empty Sticky <- MC_Empty\n'
+           'CONSTANTS MaxFaults = 0 Mutant = "none"\n'
+           'INVARIANT ReportAccept\nINVARIANT NoOverwrite\nINVARIANT UniqueOwnership\nINVARIANT InfoBeforePayload\n'
+           'INVARIANT NothingLost\nINVARIANT FinalStateIsC01\nINVARIANT PreKept\nCHECK_DEADLOCK FALSE\n')
+    d = tempfile.mkdtemp(prefix='vpt-', dir='/dev/shm' if os.path.isdir('/dev/shm') else None)
+    try:
+        p = os.path.join(d, 'traces.json')
+        with open(p, 'w') as f:
+            json.dump(traces, f)
+        res = tlc.run_tlc('MC_PutOpsTrace', cfg_text=cfg, workers=workers, timeout=timeout, env={'TRACE_FILE': p},
+                          extra_files={'MC_PutOpsTrace.tla': mod})
+        acc = set(int(m.group(1)) for m in re.finditer(r'<<"##ACCEPT", (\d+)>>', res.raw))
+        return res, acc
+    finally:
+        shutil.rmtree(d, ignore_errors=True)
